@@ -120,6 +120,19 @@ func c07Event(src uint64, stream string, off int64, seq uint64) *pipeline.Event 
 	return ev
 }
 
+// c07RemoveJob: the watched file is gone; the real deleteJobAndUnlock takes the job out of jp.jobs
+// (it wants the job done and locked, and the done-counter to cover it).
+func c07RemoveJob(jp *jobProvider, src uint64) {
+	job, has := jp.jobs[pipeline.SourceID(src)]
+	if !has {
+		return
+	}
+	job.mu.Lock()
+	job.isDone = true
+	jp.jobsDone.Inc()
+	jp.deleteJobAndUnlock(job)
+}
+
 // c07Load runs the real load() of a fresh offsetDB on path and projects the result.
 func c07Load(id int, path string) (res c07LoadResult) {
 	res.ID = id
@@ -176,7 +189,7 @@ func c07WriteJSON(t *testing.T, path string, v interface{}) {
 // (T) scripted protocol scenario, to be run under strace
 
 type c07Step struct {
-	Op     string `json:"op"` // commit | truncate | save
+	Op     string `json:"op"` // commit | truncate | remove | save
 	Src    uint64 `json:"src"`
 	Stream string `json:"stream"` // hex
 	Off    int64  `json:"off"`
@@ -257,6 +270,10 @@ func TestVerifC07Proto(t *testing.T) {
 				jp.truncateJob(jp.jobs[pipeline.SourceID(st.Src)]) // what the watcher path does when the file shrank
 			}()
 			mark(fmt.Sprintf("truncate_end %d", i))
+		case "remove":
+			mark(fmt.Sprintf("remove_begin %d %d", i, st.Src))
+			c07RemoveJob(jp, st.Src)
+			mark(fmt.Sprintf("remove_end %d", i))
 		case "save":
 			mark(fmt.Sprintf("save_begin %d", i))
 			func() {
@@ -441,6 +458,8 @@ func c07RunSeq(dir string, c *c07SeqCase) (res c07SeqResult) {
 			}
 		case "truncate":
 			jp.truncateJob(jp.jobs[pipeline.SourceID(st.Src)])
+		case "remove":
+			c07RemoveJob(jp, st.Src)
 		case "save":
 			jp.offsetDB.save(jp.jobs, jp.jobsMu)
 			res.Loads = append(res.Loads, c07SeqLoad{Step: i, Res: c07Load(c.ID, cur)})
